@@ -313,6 +313,34 @@ func cssCase(r *vlib.Rng) []vlib.Case {
 	return out
 }
 
+// svgDraw draws <svg><rect transform=attr/></svg> and returns the Transform call issued for the
+// element (the calls at OnNewStack depth 2; the two depth-1 calls are the viewport's).
+func svgDraw(attr string) (has bool, out mt.Transform, ok bool) {
+	doc := `<svg xmlns="http://www.w3.org/2000/svg" width="200" height="100"><rect x="1" y="2" width="30" height="20" transform="` + attr + `"/></svg>`
+	o := render.Guard(func() {
+		img, err := svg.Parse(strings.NewReader(doc), "", nil, nil)
+		if err != nil {
+			return
+		}
+		rec := render.NewRecorder()
+		pg := rec.AddPage(0, 0, 200, 100)
+		img.Draw(pg, 200, 100, nil)
+		n := 0
+		for _, e := range rec.Events {
+			if e.Op == "Transform" && e.Depth == 2 {
+				n++
+				out = mt.New(e.Args[0], e.Args[1], e.Args[2], e.Args[3], e.Args[4], e.Args[5])
+			}
+		}
+		has = n == 1
+		ok = n <= 1 && finiteT(out)
+	})
+	if o.Status != "ok" {
+		return false, out, false
+	}
+	return has, out, ok
+}
+
 func main() {
 	out := flag.String("out", "cases.jsonl", "output file")
 	n := flag.Int("n", 3000, "number of cases")
@@ -591,6 +619,11 @@ func main() {
 			}
 			w.Add(vlib.Case{Kind: "svg", Coq: fmt.Sprintf("CSvg %s %s %s", vlib.List(tbl), vlib.List(srcs), coqT(res)),
 				Desc: map[string]interface{}{"attr": attr, "out": res}, Nontrivial: true, Tags: tl})
+			// end to end: the same attribute on a <rect>, drawn on the recording backend
+			if has, outT, ok := svgDraw(attr); ok {
+				w.Add(vlib.Case{Kind: "svg-draw", Coq: fmt.Sprintf("CSvgDraw %s %s %s %s", vlib.List(tbl), vlib.List(srcs), vlib.Bool(has), coqT(outT)),
+					Desc: map[string]interface{}{"svg": "<rect transform=\"" + attr + "\"/>", "has_transform_call": has, "out": outT}, Nontrivial: true, Tags: tl})
+			}
 		case k >= 20:
 			for _, c := range cssCase(r) {
 				w.Add(c)
